@@ -25,8 +25,9 @@ def dispatch (cat : Cat) (ft ch sz : Nat) (fd : Bytes) : R (Nat × Nat × AnyFra
   else if ft = 3 then .ok (sz + 8, ch, .body (.bytes fd))
   else .error .unmarshaling
 
-theorem unmarshal_general (cat : Cat) (bs : Bytes) (h4 : bs.take 4 ≠ Frame.amqp) (h7 : 7 ≤ bs.length)
-    (hsz : unbe (slice bs 3 7) ≠ 0) (hlen : unbe (slice bs 3 7) + 8 ≤ bs.length)
+/-- the general path (repaired tree, D12): a zero size is allowed when the type octet is 3 -/
+theorem unmarshal_general_or (cat : Cat) (bs : Bytes) (h4 : bs.take 4 ≠ Frame.amqp) (h7 : 7 ≤ bs.length)
+    (hsz : unbe (slice bs 3 7) ≠ 0 ∨ unbe (slice bs 0 1) = 3) (hlen : unbe (slice bs 3 7) + 8 ≤ bs.length)
     (hend : bs[unbe (slice bs 3 7) + 7]? = some Frame.frameEnd) :
     Frame.unmarshal cat bs =
       dispatch cat (unbe (slice bs 0 1)) (unbe (slice bs 1 3)) (unbe (slice bs 3 7))
@@ -36,13 +37,23 @@ theorem unmarshal_general (cat : Cat) (bs : Bytes) (h4 : bs.take 4 ≠ Frame.amq
   have h7' : ¬ bs.length < 7 := by omega
   simp only [Frame.frameParts, if_neg h7']
   generalize unbe (slice bs 3 7) = sz at *
+  generalize unbe (slice bs 0 1) = ft at *
   have e1 : sz + 8 - 1 = sz + 7 := by omega
   have e2 : 7 + sz + 1 = sz + 8 := by omega
-  have c1 : ¬ (unbe (slice bs 0 1) = 8 ∧ sz = 0) := fun h => hsz h.2
+  have c1 : ¬ (ft = 8 ∧ sz = 0) := by omega
+  have c2 : ¬ (sz = 0 ∧ ft ≠ 3) := by omega
   have c3 : ¬ (sz + 8 > bs.length) := by omega
   have c4 : ¬ ((bs.drop (sz + 7)).head? ≠ some Frame.frameEnd) := by
     rw [List.head?_drop]; simp [hend]
-  simp only [e1, e2, if_neg c1, if_neg hsz, if_neg c3, if_neg c4, dispatch]
+  simp only [e1, e2, if_neg c1, if_neg c2, if_neg c3, if_neg c4, dispatch]
+
+theorem unmarshal_general (cat : Cat) (bs : Bytes) (h4 : bs.take 4 ≠ Frame.amqp) (h7 : 7 ≤ bs.length)
+    (hsz : unbe (slice bs 3 7) ≠ 0) (hlen : unbe (slice bs 3 7) + 8 ≤ bs.length)
+    (hend : bs[unbe (slice bs 3 7) + 7]? = some Frame.frameEnd) :
+    Frame.unmarshal cat bs =
+      dispatch cat (unbe (slice bs 0 1)) (unbe (slice bs 1 3)) (unbe (slice bs 3 7))
+        (slice bs 7 (unbe (slice bs 3 7) + 7)) :=
+  unmarshal_general_or cat bs h4 h7 (Or.inl hsz) hlen hend
 
 /-- the 7-byte frame header -/
 def hdrBytes (t ch n : Nat) : Bytes := UInt8.ofNat t :: (beN 2 ch ++ beN 4 n)
@@ -75,25 +86,34 @@ theorem take4_hdr_ne (t ch n : Nat) (ht : t % 256 ≠ 65) (tail : Bytes) :
   have := congrArg UInt8.toNat h.1
   simpa [UInt8.toNat_ofNat'] using this
 
-theorem unmarshal_hdr (cat : Cat) (t ch : Nat) (ht : t < 256) (ht' : t ≠ 65) (hc : ch < 65536)
-    (payload : Bytes) (hne : payload ≠ []) (hl : payload.length < 2 ^ 32) (rest : Bytes) :
+/-- an enveloped payload followed by anything; the payload may be empty when the type octet is 3 -/
+theorem unmarshal_hdr_or (cat : Cat) (t ch : Nat) (ht : t < 256) (ht' : t ≠ 65) (hc : ch < 65536)
+    (payload : Bytes) (hne : payload ≠ [] ∨ t = 3) (hl : payload.length < 2 ^ 32) (rest : Bytes) :
     Frame.unmarshal cat (envBytes t ch payload ++ rest) = dispatch cat t ch payload.length payload := by
   rw [envBytes_append]
   have hsz : unbe (slice (hdrBytes t ch payload.length ++ (payload ++ Frame.frameEnd :: rest)) 3 7) = payload.length := by
     rw [slice_hdr_size, unbe_beN_of_lt _ _ (by omega)]
-  have hpos : payload.length ≠ 0 := by
-    intro h; exact hne (List.length_eq_zero_iff.1 h)
-  rw [unmarshal_general]
-  · rw [hsz, slice_hdr_type, slice_hdr_chan, unbe_single, unbe_beN_of_lt _ _ (by omega)]
+  have hty : unbe (slice (hdrBytes t ch payload.length ++ (payload ++ Frame.frameEnd :: rest)) 0 1) = t := by
+    rw [slice_hdr_type, unbe_single]; simp [UInt8.toNat_ofNat']; omega
+  have hpos : payload.length ≠ 0 ∨ t = 3 := by
+    rcases hne with hne | h3
+    · left; intro h; exact hne (List.length_eq_zero_iff.1 h)
+    · exact Or.inr h3
+  rw [unmarshal_general_or]
+  · rw [hsz, hty, slice_hdr_chan, unbe_beN_of_lt _ _ (by omega)]
     congr 1
-    · simp [UInt8.toNat_ofNat']; omega
-    · have := slice_append_mid (hdrBytes t ch payload.length) payload (Frame.frameEnd :: rest)
-      simpa [Nat.add_comm] using this
+    have := slice_append_mid (hdrBytes t ch payload.length) payload (Frame.frameEnd :: rest)
+    simpa [Nat.add_comm] using this
   · exact take4_hdr_ne _ _ _ (by omega) _
   · simp
-  · rw [hsz]; exact hpos
+  · rw [hsz, hty]; exact hpos
   · rw [hsz]; simp; omega
   · rw [hsz]; simp [List.getElem?_append_right]
+
+theorem unmarshal_hdr (cat : Cat) (t ch : Nat) (ht : t < 256) (ht' : t ≠ 65) (hc : ch < 65536)
+    (payload : Bytes) (hne : payload ≠ []) (hl : payload.length < 2 ^ 32) (rest : Bytes) :
+    Frame.unmarshal cat (envBytes t ch payload ++ rest) = dispatch cat t ch payload.length payload :=
+  unmarshal_hdr_or cat t ch ht ht' hc payload (Or.inl hne) hl rest
 
 /-- decoding an enveloped payload followed by anything dispatches on the type octet with exactly
 the payload -/
@@ -106,5 +126,14 @@ theorem unmarshal_envelope (cat : Cat) (t : Nat) (ht : t = 1 ∨ t = 2 ∨ t = 3
       else .ok (payload.length + 8, ch, .body (.bytes payload)) := by
   rw [unmarshal_hdr cat t ch (by omega) (by omega) hc payload hne hl rest, dispatch]
   rcases ht with rfl | rfl | rfl <;> simp
+
+/-- a body frame (type octet 3) with ANY payload, the empty one included (D12), followed by anything,
+decodes to exactly that payload and consumes exactly the frame -/
+theorem unmarshal_envelope_body (cat : Cat) (ch : Nat) (hc : ch < 65536)
+    (payload : Bytes) (hl : payload.length < 2 ^ 32) (rest : Bytes) :
+    Frame.unmarshal cat (envBytes 3 ch payload ++ rest) =
+      .ok (payload.length + 8, ch, .body (.bytes payload)) := by
+  rw [unmarshal_hdr_or cat 3 ch (by omega) (by omega) hc payload (Or.inr rfl) hl rest, dispatch]
+  simp
 
 end Pamqp.Proofs
